@@ -192,6 +192,8 @@ def text_of(x):
         return x.text
     if isinstance(x, akc.CHText):
         return plain(x.chunks)
+    if isinstance(x, (list, tuple)):
+        return text_of_parts(x)
     return str(x)
 
 
@@ -200,6 +202,11 @@ def len_of(x):
         return len(x.text)
     if isinstance(x, akc.CHText):
         return total(x.chunks)
+    if isinstance(x, (list, tuple)):
+        n = 0
+        for y in x:
+            n = n + len_of(y)
+        return n
     return len(str(x))
 
 
@@ -209,6 +216,8 @@ def color_of(x, pos):
         return x.c_prefix
     if isinstance(x, akc.CHText):
         return color_at(x.chunks, pos)
+    if isinstance(x, (list, tuple)):
+        return color_in_parts(x, pos)
     return ""
 
 
@@ -450,6 +459,45 @@ UNBOUNDED_CONTRACTS = [
                         "color_at(self.chunks, start_pos + p))",
                  'havoc': {'new_chunks': ANYCHUNKS(), 'cur_chunk': CHUNK()}}},
              symlist_models=COLOR_MODELS, raises={}, modifies=[], max_paths=20000),
+    Contract(M, 'CHText.__eq__', name='CHText.__eq__/str/any_length', prop=PROP, spec_globals=G, level='top',
+             params={'self': T.one_of(ANYTEXT()), 'other': T.str},
+             requires=["wf_any(self)"],
+             ensures={'default_coloured_text_equals_str':
+                      "result == (all(c.c_prefix == '' for c in self.chunks) and plain(self.chunks) == other)"},
+             symlist_models=TEXT_MODELS, raises={}, modifies=[]),
+    Contract(M, 'CHText.__iadd__', name='CHText.__iadd__/self/any_length', prop=PROP, spec_globals=G, level='top',
+             params={'self': T.one_of(ANYTEXT()), 'other': T.same_as('self'), 'p': T.int},      # t += t
+             requires=["wf_any(self)"],
+             ensures={
+                 'wf': "wf_any(self)",
+                 'text': "plain(self.chunks) == plain(old(self.chunks)) + plain(old(self.chunks))",
+                 'len': "self.scrlen == 2 * old(self.scrlen)",
+                 'colors': "not (0 <= p < self.scrlen) or color_at(self.chunks, p) == "
+                           "color_at(old(self.chunks), p if p < old(self.scrlen) else p - old(self.scrlen))",
+                 'returns_self': "result is self",
+             },
+             invariants={1: {'inv': "wf_any(self) and plain(self.chunks) == plain(old(self.chunks)) + plain_upto(old(self.chunks), __i)"
+                                    " and self.scrlen == old(self.scrlen) + offset(old(self.chunks), __i)"
+                                    " and (not (0 <= p < self.scrlen) or color_at(self.chunks, p) == "
+                                    "color_at(old(self.chunks), p if p < old(self.scrlen) else p - old(self.scrlen)))",
+                             'modifies': HAVOC_TEXT}},
+             symlist_models=COLOR_MODELS, raises={}, modifies=['self.chunks', 'self.scrlen']),
+    Contract(M, 'CHText.__iadd__', name='CHText.__iadd__/list/any_length', prop=PROP, spec_globals=G, level='top',
+             havoc=HAVOC_TEXT, result_spec=_RET_SELF,
+             params={'self': T.one_of(ANYTEXT()),
+                     'other': T.one_of(T.list(), T.list(T.str, ANYTEXT()), T.tuple(ANYTEXT(), CHUNK(), T.str),
+                                       T.list(T.list(T.str, CHUNK()), ANYTEXT())),
+                     'p': T.int},
+             requires=["wf_any(self)"],
+             ensures={
+                 'wf': "wf_any(self)",
+                 'text': "plain(self.chunks) == plain(old(self.chunks)) + text_of(other)",
+                 'len': "self.scrlen == old(self.scrlen) + len_of(other)",
+                 'colors': "not (0 <= p < self.scrlen) or color_at(self.chunks, p) == "
+                           "(color_at(old(self.chunks), p) if p < old(self.scrlen) else color_of(other, p - old(self.scrlen)))",
+                 'returns_self': "result is self",
+             },
+             symlist_models=COLOR_MODELS, raises={}, modifies=['self.chunks', 'self.scrlen']),
     Contract(M, 'CHText.fixed_len', name='CHText.fixed_len/any_length', prop=PROP, spec_globals=G, level='top',
              params={'self': T.one_of(ANYTEXT()), 'desired_len': T.int, 'p': T.int},
              requires=["wf_any(self)", "desired_len >= 0"],
@@ -637,6 +685,7 @@ BOUNDED_SYMBOLIC = {'CHText.join/any_length': "at most 3 joined items (str / chu
                     'CHText.join': 3, 'CHText.__init__': 2, 'CHText._append_chunk': 3, 'CHText.__iadd__': 2, 'CHText.__add__': 2, 'CHText.__radd__': 2,
                     'CHText.__eq__/text': 2, 'CHText.__eq__/str': 3, 'CHText.fixed_len': 2, 'CHText._get_chunk_pos': 3, 'CHText.__getitem__/index': 3, 'CHText.__getitem__/slice': 3}
 _IADD_ANY = ['CHText.__iadd__/chunk/any_length', 'CHText.__iadd__/str/any_length', 'CHText.__iadd__/text/any_length']
+_IADD_ALL = _IADD_ANY + ['CHText.__iadd__/list/any_length']
 USES = {'CHText.__getitem__/index/any_length': ['CHText._get_chunk_pos/any_length'],
         'CHText.__getitem__/slice/any_length': ['CHText._get_chunk_pos/any_length', 'CHText.__init__/chunks/any_length',
                                                 'CHText.__init__/any_length'],
@@ -647,11 +696,19 @@ USES = {'CHText.__getitem__/index/any_length': ['CHText._get_chunk_pos/any_lengt
                                                        'CHText.__init__/any_length'],
         'CHText.fixed_len/any_length': ['CHText.__getitem__/slice/any_length', 'CHText.__getitem__/slice/colors/any_length',
                                         'CHText.__add__/any_length', 'CHText.__len__/any_length'],
+        'CHText.__iadd__/list/any_length': _IADD_ALL,
+        'CHText.__iadd__/self/any_length': ['CHText._append_chunk/any_length'],
         'CHText.__init__/any_length': _IADD_ANY, 'CHText.__init__/chunks/any_length': _IADD_ANY, 'CHText.__add__/any_length': _IADD_ANY + ['CHText.__init__/any_length'],
         'CHText.__radd__/any_length': ['CHText.__init__/any_length'],
         'CHText.join/any_length': _IADD_ANY + ['CHText.__init__/any_length']}
 ASSUMED_LIBRARY = []
 CANARIES = [
+    {'name': 'anylen_eq_str_ignores_colour', 'module': M, 'function': 'CHText.__eq__', 'verify': 'CHText.__eq__/str/any_length',
+     'old': 'return p.is_plain() and p.text == other', 'new': 'return p.text == other',
+     'unproved_is_enough': True, 'expect': 'C08.CHText.__eq__/str/any_length.default_coloured_text_equals_str'},
+    {'name': 'anylen_self_append_without_copy', 'module': M, 'function': 'CHText.__iadd__', 'verify': 'CHText.__iadd__/self/any_length',
+     'old': 'for part in list(other.chunks):  # other may be self', 'new': 'for part in other.chunks:',
+     'unproved_is_enough': True, 'expect': 'C08.CHText.__iadd__/self/any_length.loop1.inv_preserved'},
     {'name': 'anylen_slice_takes_colour_of_first_chunk', 'module': M, 'function': 'CHText.__getitem__',
      'verify': 'CHText.__getitem__/slice/colors/any_length',
      'old': '            new_chunks.append(cur_chunk)\n', 'new': '            new_chunks.append(self.chunks[0].clone(cur_chunk.text))\n',
